@@ -258,6 +258,15 @@ func (g *unigen) newContainer(d *udoc, uri, idSpelling string) *ures {
 		defs[lf.key] = n
 		res.leaves = append(res.leaves, lf)
 	}
+	if len(res.leaves) > 0 && g.r.IntN(3) == 0 {
+		// an ALIAS leaf: a reference to the first leaf plus one sibling keyword. Under 2020-12 the sibling counts (here it rejects
+		// every marker), under draft-07 it is ignored; a reference TO the alias must not be bound past it
+		first := res.leaves[0]
+		lf := &uleaf{res: res, marker: fmt.Sprintf("T%d", g.nT), key: fmt.Sprintf("alias%d", len(res.leaves))}
+		g.nT++
+		defs[lf.key] = map[string]any{"$ref": "#/" + ptrEsc(g.defsKW()) + "/" + fragEsc(ptrEsc(first.key)), "type": Pick(g.r, []string{"integer", "null", "array"})}
+		res.leaves = append(res.leaves, lf)
+	}
 	res.node[g.defsKW()] = defs
 	d.all = append(d.all, res)
 	return res
